@@ -6,53 +6,53 @@ ENTRY = {'coq_dir': 'C12',
  'nontrivial_min_trace': 40,
  'rule': 'two streams of seeded cases (plus the stored witnesses) over one notification stream built from the real NotificationHandle / '
          'NotificationSink / Connection / Substream code between scripted in-memory carriers. (1) SCHEDULER stream (every second case): both '
-         'endpoints send; nothing is spawned: each step is one call or ONE poll of one future (sync send, create+poll / poll / drop a '
-         'send_async future, one poll of a Connection task and one handle poll, each under a cooperative budget of 0..128 operations (or '
-         'unconstrained), protocol opens / shuts down '
-         'a Connection, protocol executes or fails to execute a queued ForceClose, carrier gates, transport kill), 20-140 steps quick, 40-500 '
-         'thorough, chosen while the case runs so that polls and drops hit futures that are really pending; capacities {1,2,16}x{1,2,3,16}x'
-         '{1,4,64}x{1,2,64} (sync, async, handle channel, command channel) and maximum sizes {8,16,64,100,30000,50000} drawn independently per '
-         'endpoint. (2) QUIESCENCE stream: one user action of endpoint A, then all tasks run until nothing is runnable (15-90 actions quick, '
-         '30-400 thorough; bursts up to 5x a capacity, smaller receiver maximum in a third of the cases, stalls, local close of either end, '
-         'kill, reopen). After EVERY step/action the result (send code, future outcome, user event with origin/stream/mode/tag/length) and a '
-         'state dump (tasks alive, free slots of the sync and async queues incl. permits held by waiting senders, free slots of the handle '
-         'channels, frames in the carriers, queued ForceClose commands, close notifications) are compared with the extracted Coq model; the '
-         'queue chosen by each tokio::select! is read back through a cfg(verif) log and given to the model as hints; the extracted oracle '
-         're-checks per-direction FIFO/at-most-once/size/stream-confinement/alternation/one-ForceClose on the implementation trace alone; a '
-         'case is non-trivial when its trace has >= 40 numbers; distinct = distinct (case, trace) pairs',
- 'trusted_base': ['tokio mpsc / batch-semaphore / PollSender / coop internals are exercised through the real crate; the model describes them at '
-                  'the level of permits (FIFO hand-over, release on drop, one reserved slot, budget = number of receives per poll) and the '
-                  'per-step diff of free-permit counts is what ties the two',
+         'endpoints send; nothing is spawned: each step is one call or ONE poll of one future (sync send, create+poll / poll / drop a send_async '
+         'future, one poll of a Connection task and one handle poll, each under a cooperative budget of 0..128 operations (or unconstrained), '
+         'protocol opens / shuts down a Connection, protocol executes or fails to execute a queued ForceClose, carrier gates, transport kill), '
+         '20-140 steps quick, 40-500 thorough, chosen while the case runs so that polls and drops hit futures that are really pending; capacities '
+         '{1,2,16}x{1,2,3,16}x{1,4,64}x{1,2,64} (sync, async, handle channel, command channel) and maximum sizes {8,16,64,100,30000,50000} drawn '
+         'independently per endpoint. (2) QUIESCENCE stream: one user action of endpoint A, then all tasks run until nothing is runnable (15-90 '
+         'actions quick, 30-400 thorough; bursts up to 5x a capacity, smaller receiver maximum in a third of the cases, stalls, local close of '
+         'either end, kill, reopen). After EVERY step/action the result (send code, future outcome, user event with origin/stream/mode/tag/length) '
+         'and a state dump (tasks alive, free slots of the sync and async queues incl. permits held by waiting senders, free slots of the handle '
+         'channels, frames in the carriers, queued ForceClose commands, close notifications) are compared with the extracted Coq model; the queue '
+         'chosen by each tokio::select! is read back through a cfg(verif) log and given to the model as hints; the extracted oracle re-checks '
+         'per-direction FIFO/at-most-once/size/stream-confinement/alternation/one-ForceClose on the implementation trace alone; a case is '
+         'non-trivial when its trace has >= 40 numbers; distinct = distinct (case, trace) pairs',
+ 'trusted_base': ['tokio mpsc / batch-semaphore / PollSender / coop internals are exercised through the real crate; the model describes them at the '
+                  'level of permits (FIFO hand-over, release on drop, one reserved slot, budget = number of receives per poll) and the per-step diff '
+                  'of free-permit counts is what ties the two',
                   'the harness plays the part of NotificationProtocol when it wires a stream (the cfg(verif) constructor transcribes the '
                   'Validating->Open arm of on_handshake_event); executing ForceClose = killing both carriers',
-                  "the byte carrier is the harness's own AsyncRead/AsyncWrite pipe (accepts whole writes while its gate is open); yamux "
-                  'windowing and partial writes belong to C04',
+                  "the byte carrier is the harness's own AsyncRead/AsyncWrite pipe (accepts whole writes while its gate is open); yamux windowing "
+                  'and partial writes belong to C04',
                   'payloads are >= 4 bytes (origin, mode, stream and tag are encoded in the first four bytes)',
-                  "in the quiescence stream notifications larger than the SENDER's maximum are generated only in single-mode cases (a pop "
-                  'refused before the next flush is invisible on the carrier); the scheduler stream reads the select! log and has no such limit'],
- 'level_text': 'Proof, for EVERY list of scheduler steps (any interleaving of both users, both handles, both Connection tasks, the protocols and '
-               'the carriers; no fairness or quiescence assumed), every configuration and every merge order, in both directions at once: per '
-               'stream and per sending mode the notifications delivered to the peer form a prefix of those accepted, also together with what '
-               'is still in flight (C12_per_mode_fifo, C12_pending_prefix); while the transport is up and both Connections run nothing '
-               'accepted is lost (C12_no_loss_while_open); a send of one endpoint leaves the reverse direction untouched; delivered streams '
-               'never go backwards and a notification is reported only while the handle holds the sink of its own stream (repaired code; the '
-               'original filter is refuted); Opened/Closed alternate; oversize notifications are never delivered; the handle channel never '
-               'exceeds its capacity counting the reserved slot and a Connection without a slot does not read. send_sync is a single step with '
-               'four outcomes, at most one ForceClose per stream, and once the protocol has executed it every later poll of either Connection '
-               'ends it. send_async: completes at once iff a permit is free, else waits; capacity never exceeded counting held permits; no '
-               'permit free while a live sender waits; permits handed over in FIFO order; a dropped future returns its permit. Stage-wise progress: '
-               'a poll of the sending Connection with a writable carrier sends everything parked or queued, a poll of the receiving Connection '
-               'with a free slot moves the head of the carrier to the handle, a handle poll reports the head of its channel. The quiescence '
-               'stream is proved to be a special schedule. The model is tied to connection.rs/handle.rs/substream by a per-step differential '
-               'run with state dumps.',
- 'level_note': 'Trusted: Coq kernel, ExtrOcamlBasic extraction, harness and hooks, tokio channel/semaphore internals below the permit level. '
-               'One scheduler step is one poll of one future: interleavings INSIDE a poll (threads preempted mid-poll on a multi-thread runtime) '
-               'are covered only as far as every shared object is a tokio channel whose operations are atomic. Liveness is limited to '
+                  "in the quiescence stream notifications larger than the SENDER's maximum are generated only in single-mode cases (a pop refused "
+                  'before the next flush is invisible on the carrier); the scheduler stream reads the select! log and has no such limit'],
+ 'level_text': 'Proof, for EVERY list of scheduler steps (any interleaving of both users, both handles, both Connection tasks, the protocols and the '
+               'carriers; no fairness or quiescence assumed), every configuration and every merge order, in both directions at once: per stream and '
+               'per sending mode the notifications delivered to the peer form a prefix of those accepted, also together with what is still in flight '
+               '(C12_per_mode_fifo, C12_pending_prefix); while the transport is up and both Connections run nothing accepted is lost '
+               '(C12_no_loss_while_open); a send of one endpoint leaves the reverse direction untouched; delivered streams never go backwards and a '
+               'notification is reported only while the handle holds the sink of its own stream (repaired code; the original filter is refuted); '
+               'Opened/Closed alternate; oversize notifications are never delivered; the handle channel never exceeds its capacity counting the '
+               'reserved slot and a Connection without a slot does not read. send_sync is a single step with four outcomes, at most one ForceClose '
+               'per stream, and once the protocol has executed it every later poll of either Connection ends it. send_async: completes at once iff a '
+               'permit is free, else waits; capacity never exceeded counting held permits; no permit free while a live sender waits; permits handed '
+               'over in FIFO order; a dropped future returns its permit. Stage-wise progress: a poll of the sending Connection with a writable '
+               'carrier sends everything parked or queued, a poll of the receiving Connection with a free slot moves the head of the carrier to the '
+               'handle, a handle poll reports the head of its channel. The quiescence stream is proved to be a special schedule. The model is tied '
+               'to connection.rs/handle.rs/substream by a per-step differential run with state dumps.',
+ 'level_note': 'Trusted: Coq kernel, ExtrOcamlBasic extraction, harness and hooks, tokio channel/semaphore internals below the permit level. One '
+               'scheduler step is one poll of one future: interleavings INSIDE a poll (threads preempted mid-poll on a multi-thread runtime) are '
+               'covered only as far as every shared object is a tokio channel whose operations are atomic. Liveness is limited to '
                'C12_force_close_closes and the three per-stage progress theorems (no end-to-end eventual-delivery theorem under a fairness '
-               'assumption; wake-ups are not modelled because the schedule is arbitrary). Connection polls are modelled and driven under the cooperative budget of tokio (a poll cut short after k pops of its '
-               'outbound loop, a slot of the handle channel handed over but not yet collected); only close_connection is kept atomic (the '
-               'harness polls a task that has begun to close until it is done, which is one of the real schedules).',
+               'assumption; wake-ups are not modelled because the schedule is arbitrary). Connection polls are modelled and driven under the '
+               'cooperative budget of tokio (a poll cut short after k pops of its outbound loop, a slot of the handle channel handed over but not '
+               'yet collected); only close_connection is kept atomic (the harness polls a task that has begun to close until it is done, which is '
+               'one of the real schedules).',
  'assumptions': ['channel capacities >= 1 (tokio panics on 0)',
-                 'a stream is set up again only after both Connection tasks of the previous one have finished (guaranteed by '
-                 "NotificationProtocol's peer state, C11); each endpoint joins a stream at most once",
-                 'relative order between the two sending modes is not claimed (matches the property text)']}
+                 "a stream is set up again only after both Connection tasks of the previous one have finished (guaranteed by NotificationProtocol's "
+                 'peer state, C11); each endpoint joins a stream at most once',
+                 'relative order between the two sending modes is not claimed (matches the property text)'],
+ 'proof_files': ['Properties', 'StartProperties']}
